@@ -164,3 +164,55 @@ pub open spec fn selected(all: Seq<ValueState>, epoch: u64, params: HistoryParam
     exists|sorted: Seq<ValueState>| sorted.to_multiset() == all.filter(|s: ValueState| s.epoch <= epoch).to_multiset()
         && newest_first(sorted) && #[trigger] cut(sorted, params) == out
 }
+
+// ---- batch lookup: per label the same answer as a single lookup at the same epoch record
+#[verifier::external_body]
+pub fn vx_unreachable()
+    requires false
+{ unimplemented!() }
+// what lookup_with_info assembles for (epoch record, lookup info): a function of what one request sees (its fields are pinned by
+// lookup_with_info's own contract); the skip_preload flag is not an argument - preloading only warms the cache
+pub uninterp spec fn lookup_answer<S: Database, V>(storage: &StorageManager<S>, vrf: &V, azks: Azks, info: LookupInfo) -> Result<LookupProof, AkdError>;
+pub uninterp spec fn lookup_info_of<S: Database, V>(storage: &StorageManager<S>, vrf: &V, label: Seq<u8>, epoch: u64) -> Result<LookupInfo, AkdError>;
+pub open spec fn iv(v: Vec<LookupInfo>) -> Seq<LookupInfo> { v@ }
+pub open spec fn pv(v: Vec<LookupProof>) -> Seq<LookupProof> { v@ }
+
+pub open spec fn info_selected<S: Database, V>(storage: &StorageManager<S>, vrf: &V, label: Seq<u8>, epoch: u64, info: LookupInfo) -> bool {
+    &&& user_state(storage, label, ValueStateRetrievalFlag::LeqEpoch(epoch)) is Ok
+    &&& info.value_state == user_state(storage, label, ValueStateRetrievalFlag::LeqEpoch(epoch))->Ok_0
+    &&& info.marker_version == plog(info.value_state.version)
+    &&& Ok::<NodeLabel, VrfError>(info.existent_label) == vrf_label(vrf, info.value_state.username.0@, VersionFreshness::Fresh, info.value_state.version)
+    &&& Ok::<NodeLabel, VrfError>(info.marker_label) == vrf_label(vrf, info.value_state.username.0@, VersionFreshness::Fresh, info.marker_version)
+    &&& Ok::<NodeLabel, VrfError>(info.non_existent_label) == vrf_label(vrf, info.value_state.username.0@, VersionFreshness::Stale, info.value_state.version)
+}
+pub open spec fn lookup_assembled<TC: Configuration, S: Database, V>(storage: &StorageManager<S>, vrf: &V, azks: Azks, info: LookupInfo, p: LookupProof) -> bool {
+    let l = info.value_state.username.0@; let v = info.value_state.version;
+    &&& p.epoch == info.value_state.epoch && p.version == v && p.value == info.value_state.value
+    &&& vrf_proof(vrf, l, VersionFreshness::Fresh, v) is Ok && p.existence_vrf_proof@ == proof_bytes(vrf_proof(vrf, l, VersionFreshness::Fresh, v)->Ok_0)
+    &&& vrf_proof(vrf, l, VersionFreshness::Fresh, info.marker_version) is Ok && p.marker_vrf_proof@ == proof_bytes(vrf_proof(vrf, l, VersionFreshness::Fresh, info.marker_version)->Ok_0)
+    &&& vrf_proof(vrf, l, VersionFreshness::Stale, v) is Ok && p.freshness_vrf_proof@ == proof_bytes(vrf_proof(vrf, l, VersionFreshness::Stale, v)->Ok_0)
+    &&& Ok::<MembershipProof, AkdError>(p.existence_proof) == mem_proof(azks, storage, info.existent_label)
+    &&& Ok::<MembershipProof, AkdError>(p.marker_proof) == mem_proof(azks, storage, info.marker_label)
+    &&& Ok::<NonMembershipProof, AkdError>(p.freshness_proof) == nonmem_proof(azks, storage, info.non_existent_label)
+    &&& vrf_secret(vrf) is Ok
+    &&& p.commitment_nonce@ == TC::spec_nonce(TC::spec_hash(vrf_secret(vrf)->Ok_0@)@, proof_label(vrf_proof(vrf, l, VersionFreshness::Fresh, v)->Ok_0), v, info.value_state.value.0@)@
+}
+
+// info_selected pins every field of a LookupInfo, so "the" lookup info of (label, epoch) is well defined
+pub open spec fn the_info<S: Database, V>(storage: &StorageManager<S>, vrf: &V, label: Seq<u8>, epoch: u64) -> LookupInfo {
+    choose|info: LookupInfo| info_selected(storage, vrf, label, epoch, info)
+}
+pub proof fn lemma_the_info<S: Database, V>(storage: &StorageManager<S>, vrf: &V, label: Seq<u8>, epoch: u64, info: LookupInfo)
+    requires info_selected(storage, vrf, label, epoch, info)
+    ensures the_info(storage, vrf, label, epoch) == info
+{
+    let t = the_info(storage, vrf, label, epoch);
+    assert(info_selected(storage, vrf, label, epoch, t));
+    assert(t.existent_label == info.existent_label && t.marker_label == info.marker_label && t.non_existent_label == info.non_existent_label);
+}
+pub open spec fn per_label_ok<TC: Configuration, S: Database, V>(storage: &StorageManager<S>, vrf: &V, azks: Azks, labels: Seq<AkdLabel>, proofs: Seq<LookupProof>) -> bool {
+    &&& proofs.len() == labels.len()
+    &&& forall|k: int| #![trigger labels[k]] 0 <= k < labels.len() ==>
+            info_selected(storage, vrf, labels[k].0@, azks.latest_epoch, the_info(storage, vrf, labels[k].0@, azks.latest_epoch))
+            && lookup_assembled::<TC, S, V>(storage, vrf, azks, the_info(storage, vrf, labels[k].0@, azks.latest_epoch), proofs[k])
+}
